@@ -137,7 +137,11 @@ class Acc(object):
             for key, nt in res.sub:
                 self.evaluations += 1
                 if nt:
-                    self.nontrivial.add(hashlib.blake2b((base + "|" + str(key)).encode(), digest_size=8).digest())
+                    h = hashlib.blake2b((base + "|" + str(key)).encode(), digest_size=8).digest()
+                    if h not in self.nontrivial:
+                        self.nontrivial.add(h)
+                        if len(self.samples) < 4:
+                            self.samples.append({"base_case": clip(case), "sub_execution": str(key)})
         if res.nontrivial:
             h = case_hash(case)
             if h not in self.nontrivial:
